@@ -13,6 +13,12 @@ CHECKS = {
  'C20': dict(text='Fifteen theorems (Props/C20.v) about the traced quatfit kernels: q2mat of a unit quaternion is a proper rotation; Horn identity t.(Q(q)s) = q^T N q for the form the code builds; additivity of the accumulation loop (n = 2, 3 traced); residual identity for any number of points; a maximiser of the form minimises the RMSD over all unit quaternions; exact copies give zero deviation; an orthogonal eigen-decomposition with largest eigenvalue last certifies the maximiser; fit_fragment places fitted atoms on their targets for any fragment position. Jacobi convergence is not proved: its certificate is checked per sample.',
              note='Trusted: Coq kernel; Reals axioms; trace translator; Jacobi convergence (certificate checked numerically per sample); Euler-Rodrigues surjectivity not proved (optimality over unit quaternions); the n-pair loop modelled as a fold of the traced one-pair form.',
              technique='Coq proof over R (ring identities on traced kernels, induction over the point list) + per-sample eigen certificate', design='6 C20'),
+ 'C10': dict(text='Eight theorems closed under the global context (Props/C10.v).  The central one is universally quantified over the grammar: every well-formed component (signed x/y/z terms in any order, one fractional or decimal translation numeral of arbitrary digits anywhere among them, optional leading plus), in every decoration with blanks and lower case, is parsed by the character-level model of SymmetryElement to exactly the rotation row and translation it denotes; printing a component and parsing it back is the identity; equality holds for whole lattice translations, implies integer difference within 1e-6, and is exact on the 1/24 grid. The model is tied to /repo by running it inside Coq on every component of a bounded grammar, on printed operators and on equality tests.',
+             note='Trusted: Coq kernel/VM; hand model Model/Symm.v (float()/eval() on the numeral grammar, str methods on ASCII) validated by correspondence on the enumerated grammar; float rounding not modelled.',
+             technique='Coq proof by induction over item lists and characters (partition lemmas, step invariant) + vm_compute correspondence', design='6 C10'),
+ 'C11': dict(text='Seven theorems closed under the global context (Props/C11.v) about the model of LATT decoding and SymmCards as repaired: every listed operator is one of the expected (generator x centring x inversion) operators, every expected operator is present modulo lattice translations, no two listed operators agree modulo lattice translations, and with distinct generators the count is (1+#SYMM) x centring multiplicity x (2 if centrosymmetric), for every LATT code and every SYMM list. The model is compared in order with Shelxfile.symmcards on 31 tabulated space groups in four spellings and random generator sets; closure is checked per sample in exact rationals.',
+             note='Trusted: Coq kernel/VM; hand model Model/Latt.v validated by correspondence; closure under composition not proved (input property).',
+             technique='Coq proof (fold with duplicate suppression: soundness, coverage, NoDup, permutation count) + vm_compute correspondence', design='6 C11'),
 }
 NOT_YET = {}
 def main():
